@@ -88,6 +88,7 @@ theorem inLanguage_unique (src : Str) (d1 d2 : Document) (h1 : InLanguage src d1
 variable (hN : ∀ ts, (∀ d1 ∈ derivations ts, ∀ d2 ∈ derivations ts, d1 = d2) → (derivations ts).length ≤ 1)
 include hN
 
+omit hJ in
 theorem verdict_of_inLanguage (src : Str) (d : Document) (h : InLanguage src d) :
     verdict src = .accept d := by
   obtain ⟨hscreen, ts, hts, hd⟩ := h
@@ -124,8 +125,9 @@ theorem verdict_accept_iff (src : Str) (d' : Document) :
           exact ⟨by simpa using hscreen, ts, hts, by rw [hds]; simp⟩
         · cases hv
   · rintro ⟨d, hd, rfl⟩
-    exact verdict_of_inLanguage hV hS hC hJ hN src _ (parseDocument_sound hV hS hJ src d hd)
+    exact verdict_of_inLanguage hV hS hC hN src _ (parseDocument_sound hV hS hJ src d hd)
 
+omit hJ in
 /-- the specification never reports an ambiguity -/
 theorem verdict_not_ambiguous (src : Str) (n : Nat) : verdict src ≠ .ambiguous n := by
   intro hv
